@@ -1147,6 +1147,9 @@ func (ex *Exec) indexAddr(x Value, i *Term, it types.Type, xt types.Type) Value 
 		ex.nilCheck(xv)
 		at := xt.Underlying().(*types.Pointer).Elem().Underlying().(*types.Array)
 		ex.check(ex.inBounds(i, ex.intc(at.Len()), it), "index out of range")
+		if xv.viewLen > 0 {
+			i = ex.addInt(i, ex.intc(xv.base))
+		}
 		if i.isConst {
 			return PtrV{obj: xv.obj, path: extendPath(xv.path, pathElem{field: -1, idx: ex.termInt64(i)})}
 		}
@@ -1264,7 +1267,7 @@ func (ex *Exec) sliceOp(fr *frame, in *ssa.Slice) Value {
 // into their own object and the struct field is replaced by a reference.
 func (ex *Exec) arrayObjOf(p PtrV, n int, elem types.Type) (*Object, int64) {
 	if p.obj.isArr && len(p.path) == 0 {
-		return p.obj, 0
+		return p.obj, p.base
 	}
 	// embedded array: promote
 	cur := ex.load(p)
